@@ -183,6 +183,14 @@ impl PublishCounter {
     pub fn store(&mut self, v: usize, o: Ordering) requires false { }
     #[verifier::external_body]
     pub fn swap(&mut self, v: usize, o: Ordering) -> usize requires false { unimplemented!() }
+    #[verifier::external_body]
+    pub fn fetch_max(&mut self, v: usize, o: Ordering) -> usize requires false { unimplemented!() }
+    #[verifier::external_body]
+    pub fn fetch_min(&mut self, v: usize, o: Ordering) -> usize requires false { unimplemented!() }
+    #[verifier::external_body]
+    pub fn fetch_sub(&mut self, v: usize, o: Ordering) -> usize requires false { unimplemented!() }
+    #[verifier::external_body]
+    pub fn fetch_or(&mut self, v: usize, o: Ordering) -> usize requires false { unimplemented!() }
 }
 pub struct MMapContents { pub publisher_tail: ReserveCounter, pub consumer_tail: PublishCounter }
 pub struct Setter<T> { pub value: Ghost<T> }
